@@ -4,7 +4,8 @@
 package serverinterceptors
 
 // C04 zRPC server: the handler runs under WithTimeout(caller's ctx, per-method or default timeout); the timeout arm
-// returns (nil, status error) and never the handler's partial result.
+// returns (nil, status error) and never the handler's partial result, and it returns without taking the mutex the worker
+// goroutine holds for the whole handler call (otherwise it would wait for a handler that ignores its context).
 //@ func getTimeoutByUnaryServerInfo
 //@   property C04
 //@   ensures result == ite(inDom(timeouts, method), timeouts[method], defaultTimeout)
@@ -19,6 +20,7 @@ package serverinterceptors
 //@   ghost at arm ctx.Done(): armT = true
 //@   call WithTimeout#0: assert arg_parent == ctx0 && arg_timeout == ite(inDom(timeouts, info.FullMethod), timeouts[info.FullMethod], timeout)
 //@   ensures implies(armT, r0 == nil)
+//@   call Lock#*: assert !armT
 
 //@ func UnaryTimeoutInterceptor closure 1
 //@   property C04
